@@ -222,3 +222,8 @@ func vK07d() {
 	vAssert(chunk.EndState.GeneratedLine == fl, "EndState.GeneratedLine is the last line of the output")
 	vReach("end")
 }
+
+// Exported for kernels in other packages (overlaid together with this file).
+func VDecodeMappings(data []byte) ([][5]int, bool) { return hDecodeMappings(data) }
+func VLineCol(text []byte, upto int) (int, int, bool) { return hLineCol(text, upto) }
+func VWholeChars(seg []byte) bool                   { return hWholeChars(seg) }
